@@ -343,10 +343,17 @@ func runRuntime(t *testing.T, run *vt.Run, c vt.CaseID, rc rtCase) {
 		}
 		var all []services.Service
 		wrapperOf := map[int]services.Service{}
+		// leftNew: module services that were actually started. A module service that is stopped while still New
+		// (a failure listener stopping the manager while it is still starting its services) ends Terminated
+		// without ever running: it was "not started", it cannot "fail as well".
+		var leftNewMu sync.Mutex
+		leftNew := map[int]bool{}
 		for i := 0; i < g.N; i++ {
 			if s, ok := svcMap[name(i)]; ok {
 				all = append(all, s)
 				wrapperOf[i] = s
+				i := i
+				s.AddListener(services.NewListener(func() { leftNewMu.Lock(); leftNew[i] = true; leftNewMu.Unlock() }, nil, nil, nil, nil))
 			}
 		}
 		mgr, err := services.NewManager(all...)
@@ -450,7 +457,10 @@ func runRuntime(t *testing.T, run *vt.Run, c vt.CaseID, rc rtCase) {
 					if started[x] {
 						run.Violation(c, "runtime/dependant-started-after-dependency-failed", fmt.Sprintf("%s failed to start but its dependant %s was started", name(m), name(x)), d(nil))
 					}
-					if w := wrapperOf[x]; w != nil && w.State() != services.Failed {
+					leftNewMu.Lock()
+					ran := leftNew[x]
+					leftNewMu.Unlock()
+					if w := wrapperOf[x]; w != nil && w.State() != services.Failed && (ran || w.State() != services.Terminated) {
 						run.Violation(c, "runtime/dependant-not-failed", fmt.Sprintf("%s failed to start but the service of its dependant %s ended %v", name(m), name(x), w.State()), d(nil))
 					}
 				}
